@@ -14,7 +14,9 @@ SPEC = {
                      "frame byte for byte and the composed model decides completion (single frames, fast packets intact/damaged, "
                      "lone TP.CM/TP.DT, slot use of a BAM); only the completion of a TP payload (C10 receiver) is an input (annotation of the last TP.DT frame)",
                      "CAN driver queue, ParseMessages reading at most 20 frames per call and the ForwardMode bits (one Bool per bit) "
-                     "are part of the composed model; the harness's hold/poll/mode/tp ops exercise them on the real code"],
+                     "are part of the composed model; the harness's hold/poll/mode/tp ops exercise them on the real code",
+                     "C14_what_is_dispatched (no annotation) uses the C10 node model N2k.TP as receive side (raw frames, TP reassembly, "
+                     "C10's receiver invariant); that model is tied to the code by C10's correspondence runs, not by this engine"],
     'assumptions': ["handlers are only used while alive and constructed where no live object is (C++ object lifetime rules)",
                     "a handler's PGN is not changed while attached; bus objects outlive their handlers",
                     "HandleMsg / the plain callback do not attach, detach or destroy handlers while a message is dispatched",
@@ -30,7 +32,9 @@ MANIFEST = {
             "iff set; END TO END over histories of client operations and received FRAMES (receive model of C02 composed with "
             "the handler list): event by event a call happens exactly when the receive model completes a message, with exactly "
             "that message, to exactly the matching handlers, all-PGN handlers first; TP.CM/TP.DT frames never dispatch "
-            "(completion of a TP payload is the only input); a poll hands the <=20 oldest waiting frames to the receive path and "
+            "(completion of a TP payload is the only input there); the same exactness WITHOUT any input over raw frame "
+            "histories with the C10 node model as receive side (C14_what_is_dispatched), where every dispatched TP payload is a "
+            "complete in-order transfer of the frame history (C10 receiver invariant, C14_tp_payload_genuine); a poll hands the <=20 oldest waiting frames to the receive path and "
             "removes no other frame (bursts are delivered by later polls); forwarding options have no influence on handling. Harness "
             "adds bursts of 21..75 waiting frames, TP payloads 9..223 bytes by BAM/RTS, handle-only-known x forwarding options. Correspondence: real tMsgHandler subclasses on two real tNMEA2000 objects (one listen-only, one active "
             "node) fed CAN frames through ParseMessages under ASan, compared call by call (ids in call order) with the model and "
@@ -39,6 +43,8 @@ MANIFEST = {
             "and damaged, with ParseMessages after every frame: dispatches = messages completely received, each carrying the "
             "PGN and source of the completed message.",
     'design_ref': 'DESIGN.md section 4, C14',
-    'note': "Trusted: Lean kernel; hand transcription validated only by the differential runs; TP payload reassembly (C10) is not composed: its "
-            "completion is an input event of the end-to-end theorem (hence _partial); the harness checks it on the real code.",
+    'note': "Trusted: Lean kernel; hand transcription validated only by the differential runs; two compositions: with the C02 receive model (executed by "
+            "the engine; TP payload completion is an input, hence _partial) and with the C10 node model (no input, "
+            "C14_what_is_dispatched; its handler log `out` is read as appended-to, which is how TP.deliver writes it); the "
+            "agreement of the two receive models with each other is not proved, each is tied to the code by its own harness.",
 }
